@@ -1,16 +1,22 @@
 #!/bin/bash
 # usage: check.sh <Cxx> [quick|thorough]
-# Rebuilds the checker if needed, then analyses /repo/src's current working
-# tree (parse + type-check in process, nothing cached between runs) and writes
-# /verif/evidence/<Cxx>.json. Exit 0 = all obligations discharged (known
-# findings printed), 1 = VIOLATION line(s), 2 = UNDECIDED (machinery could not
-# decide: lost anchor, load failure).
+# Rebuilds the checker if its sources are newer than the binary (under a lock, so that
+# checks may run in parallel), then analyses /repo/src's current working tree (parse +
+# type-check in process, nothing cached between runs) and writes /verif/evidence/<Cxx>.json.
+# Exit 0 = all obligations discharged (known findings printed), 1 = VIOLATION line(s),
+# 2 = UNDECIDED (machinery could not decide: lost anchor, load failure).
 prop=${1:?property id}
 tier=${2:-${VERIF_TIER:-quick}}
 export GOFLAGS=-mod=mod GOPROXY=off GOSUMDB=off GOTOOLCHAIN=local GOWORK=off
 unset GOOS GOARCH
-cd /verif/checker || exit 2
-if ! go build -o /verif/bin/rscheck ./cmd/rscheck; then
+mkdir -p /verif/bin /verif/evidence
+(
+  flock 9
+  if [ ! -x /verif/bin/rscheck ] || [ -n "$(find /verif/checker -name '*.go' -newer /verif/bin/rscheck -print -quit)" ] || [ /verif/checker/go.mod -nt /verif/bin/rscheck ]; then
+    cd /verif/checker && go build -o /verif/bin/rscheck.new ./cmd/rscheck && mv -f /verif/bin/rscheck.new /verif/bin/rscheck
+  fi
+) 9>/verif/bin/.build.lock
+if [ ! -x /verif/bin/rscheck ]; then
   echo "UNDECIDED property=$prop checker does not build"
   exit 2
 fi
